@@ -7,7 +7,7 @@ import datetime as dt
 import numpy as np
 import pandas as pd
 
-SHAPES = ["daily_series_utc", "hourly_frame_chicago", "billing_frame_utc", "daily_frame_kolkata"]
+SHAPES = ["daily_series_utc", "hourly_frame_chicago", "billing_frame_utc", "daily_frame_kolkata", "daily_intframe_utc"]      # intframe: whole-number readings in an integer column
 _fn = {}
 
 
@@ -21,6 +21,8 @@ def _scale(shape):
     # (days per abstract unit, base instant in UTC, display tz, frame?)
     if shape == "daily_series_utc":
         return 1, pd.Timestamp("2019-03-01T00:00:00Z"), "UTC", False
+    if shape == "daily_intframe_utc":
+        return 1, pd.Timestamp("2019-06-01T00:00:00Z"), "UTC", True
     if shape == "hourly_frame_chicago":
         return 1, pd.Timestamp("2019-03-08T19:00:00Z"), "America/Chicago", True      # the March clock change (10 March 08:00Z) falls 1.5 days after the base: inside even the quick timeline
     if shape == "billing_frame_utc":
@@ -36,7 +38,12 @@ def build(cin, shape):
     stamps = [base + half * t for t in cin["idx"]]
     index = pd.DatetimeIndex(stamps).tz_convert(tz)
     vals = np.array([10.0 + 1.5 * j if v == "fin" else np.nan for j, v in enumerate(cin["vals"])])
-    if frame:
+    if shape == "daily_intframe_utc":
+        # int64 when every reading is there, the nullable Int64 (pd.NA) otherwise
+        ints = [10 + 3 * j if v == "fin" else None for j, v in enumerate(cin["vals"])]
+        col = np.array(ints, dtype="int64") if all(x is not None for x in ints) else pd.array(ints, dtype="Int64")
+        data = pd.DataFrame({"value": col, "other": vals * 2.0 + 1.0}, index=index)
+    elif frame:
         data = pd.DataFrame({"value": vals, "other": vals * 2.0 + 1.0}, index=index)
     else:
         data = pd.Series(vals, index=index, name="value")
@@ -57,8 +64,8 @@ def build(cin, shape):
 def _same(a, b):
     if type(a) is not type(b) or not a.index.equals(b.index) or str(a.index.tz) != str(b.index.tz):
         return False
-    av = a.to_numpy(dtype=float)
-    bv = b.to_numpy(dtype=float)
+    av = a.to_numpy(dtype=float, na_value=np.nan)
+    bv = b.to_numpy(dtype=float, na_value=np.nan)
     return av.shape == bv.shape and bool(np.all((av == bv) | (np.isnan(av) & np.isnan(bv))))
 
 
@@ -100,7 +107,7 @@ def realise(cin, shape):
             same = False
         if isinstance(sel, pd.DataFrame):
             same = same and list(sel.columns) == list(keep.columns)
-        out["lastBlank"] = bool(np.all(np.isnan(sel.iloc[-1:].to_numpy(dtype=float))))
+        out["lastBlank"] = bool(np.all(np.isnan(sel.iloc[-1:].to_numpy(dtype=float, na_value=np.nan))))
     out["sameVals"] = bool(same)
     names = []
     for w in warns:
